@@ -64,24 +64,20 @@ func (pq *pqList) Insert(id interface{}, expireAt time.Time) {
 	pq.insert(id, expireAt)
 }
 func (pq *pqList) insert(id interface{}, expireAt time.Time) {
-	pq.mtx.RLock()
+	pq.mtx.Lock()
+	defer pq.mtx.Unlock()
 	deadline := expireAt.Round(time.Second)
 	elt, ok := pq.buckets[deadline]
-	pq.mtx.RUnlock()
 	if !ok {
-		pq.mtx.Lock()
-		defer pq.mtx.Unlock()
-		if elt, ok = pq.buckets[deadline]; !ok {
-			elt = &bucket{
-				data: []item{
-					{value: id, deadline: expireAt},
-				},
-				deadline: deadline,
-			}
-			pq.buckets[deadline] = elt
-			heap.Push(&pq.pq, elt)
-			return
+		elt = &bucket{
+			data: []item{
+				{value: id, deadline: expireAt},
+			},
+			deadline: deadline,
 		}
+		pq.buckets[deadline] = elt
+		heap.Push(&pq.pq, elt)
+		return
 	}
 	elt.put(id, expireAt)
 }
@@ -117,9 +113,11 @@ func (pq *pqList) Expire(now time.Time) []interface{} {
 		}
 		expired := heap.Pop(&pq.pq).(*bucket)
 		delete(pq.buckets, expired.deadline)
+		expired.mtx.Lock()
 		for _, v := range expired.data {
 			out = append(out, v.value)
 		}
+		expired.mtx.Unlock()
 	}
 }
 
